@@ -6,7 +6,7 @@ cd /repo || exit 2
 git diff --quiet || { echo "/repo not clean"; exit 2; }
 git apply "$patch" || { echo "PATCH DOES NOT APPLY"; exit 3; }
 if [ "$props" = all ]; then props=$(python3 -c "import json;print(','.join(c['property_id'] for c in json.load(open('/verif/MANIFEST.json'))['checks']))"); fi
-det=0
+det=0; mkdir -p /tmp/trymut-verif; cp /verif/known_findings.json /tmp/trymut-verif/
 for p in ${props//,/ }; do
   out=$(MHUBSA_VERIF=/tmp/trymut-verif /verif/bin/mhubsa -property $p 2>&1)
   n=$(echo "$out" | grep -c "^VIOLATION")
